@@ -16,6 +16,7 @@ import (
 	"reflect"
 	"regexp"
 	"runtime"
+	"runtime/debug"
 	"sort"
 	"strings"
 	"time"
@@ -300,7 +301,9 @@ func classify(f ecmare.Features, engine string, subj []rune, ogen bool, nonUAgre
 		return "class/empty-or-any-bounded-U+1FFFF"
 	case f.PropertyEscape:
 		return "escape/unicode-property-as-literal"
-	case f.SurrogatePair && hasAbove(subj, 0xFFFF):
+	case f.SurrogatePair:
+		// \uD83D\uDE00 is one code point in Unicode mode; taken as two units it also
+		// changes what a following quantifier applies to, so the subject need not be astral
 		return "escape/surrogate-pair-not-combined"
 	}
 	feat := "other"
@@ -331,6 +334,9 @@ func classify(f ecmare.Features, engine string, subj []rune, ogen bool, nonUAgre
 
 // O1 timeout: only ever turns a pair into "inconclusive".
 const o1Timeout = 300 * time.Millisecond
+
+// total O1 time per pattern before O1 is dropped for the rest of the pattern
+const o1PatternBudget = 4 * time.Second
 
 // decide runs one pattern against its subjects.
 func (w *worker) decide(it item, narrate bool) *outcome {
@@ -449,12 +455,16 @@ func (w *worker) decide(it item, narrate bool) *outcome {
 
 	// O3 request goes out first so V8 works while the Go engines run
 	var ans *nodeAnswer
-	o3 := false
+	o3, o3timedOut := false, false
 	if w.node != nil && utf8.ValidString(p) {
 		if id, err := w.node.send(p, it.set, extra); err == nil {
 			a, err := w.node.recv(id, total)
 			if err != nil {
 				o.count("o3_unavailable_for_pattern", 1)
+				if err == errNodeTimeout {
+					o3timedOut = true
+					o.count("o3_watchdog_timeout", 1)
+				}
 				say("O3 error: %v", err)
 			} else {
 				ans, o3 = a, true
@@ -474,22 +484,49 @@ func (w *worker) decide(it item, narrate bool) *outcome {
 	// when it runs the same engine.
 	o1dead := re1 == nil
 	o1panicked := false
-	o1 := func(rs []rune) (m, ok bool) {
+	// When ogen itself runs on regexp2, O1 replays ogen's exact call sequence
+	// (MatchString, then MatchRunes as Match([]byte) does) on its own instance
+	// first: regexp2 keeps state between calls (observed: the first call on an
+	// input returns at once, a later identical call spins until the timeout),
+	// so only an instance with the same history predicts what ogen's will do.
+	var o1spent time.Duration
+	o1 := func(s string, rs []rune) (m, ok bool) {
 		if o1dead {
 			return false, false
 		}
-		var err error
-		if pan, txt := ev.Guard(func() { m, err = re1.MatchRunes(rs) }); pan {
+		var err, errS error
+		mS := false
+		t0 := time.Now()
+		pan, txt := ev.Guard(func() {
+			if engine == engRegexp2 {
+				mS, errS = re1.MatchString(s)
+			}
+			m, err = re1.MatchRunes(rs)
+		})
+		o1spent += time.Since(t0)
+		if pan {
 			// O1 is out for this pattern; ogen is still asked (guarded) below
 			o1dead, o1panicked = true, true
 			o.count("patterns_o1_panic", 1)
-			o.inc = append(o.inc, inconc{"o1-panic", map[string]any{"pattern": p, "subject": string(rs), "engine": engine, "panic": txt}, 0})
+			o.inc = append(o.inc, inconc{"o1-panic", map[string]any{"pattern": p, "subject": s, "engine": engine, "panic": txt}, 0})
 			return false, false
+		}
+		if err == nil {
+			err = errS
 		}
 		if err != nil {
 			o1dead = true
 			o.count("patterns_o1_timeout", 1)
-			o.inc = append(o.inc, inconc{"o1-timeout", map[string]any{"pattern": p, "subject": string(rs), "engine": engine, "error": err.Error()}, 0})
+			o.inc = append(o.inc, inconc{"o1-timeout", map[string]any{"pattern": p, "subject": s, "engine": engine, "error": err.Error()}, 0})
+			return false, false
+		}
+		if o1spent > o1PatternBudget {
+			// slow but under the per-call timeout: stop paying for it (only ever un-decides pairs)
+			o1dead = true
+			o.count("patterns_o1_dropped_slow", 1)
+		}
+		if engine == engRegexp2 && mS != m {
+			o.count("o1_string_vs_runes_differ", 1)
 			return false, false
 		}
 		return m, true
@@ -508,7 +545,7 @@ func (w *worker) decide(it item, narrate bool) *outcome {
 				s, rs, b := subj(i)
 				cur = s
 				if engine == engRegexp2 {
-					o1(rs)
+					o1(s, rs)
 				}
 				if !ogenSafe() {
 					o.count("ogen_not_called_after_o1_timeout_same_engine", 1)
@@ -646,15 +683,26 @@ func (w *worker) decide(it item, narrate bool) *outcome {
 	}
 	matched, unmatched := 0, 0
 	useO2 := !f.Extended()
-	o2over := 0
+	o2over, o2steps := 0, 0
+	o2budget := 20_000_000 + 100*total
 	cur := ""
 	pan, txt := ev.Guard(func() {
 		for i := 0; i < total; i++ {
 			s, rs, bs := subj(i)
 			cur = s
 			resOgen[i], resO1[i], resO2[i] = na, na, na
+			// a pattern on which two oracles gave up (timeout / step budget) is
+			// pathological for backtracking engines: nothing can be decided any more
+			if lost := b2(o1dead) + b2(o2over >= 3 || o2steps > o2budget) + b2(o3timedOut); lost >= 2 {
+				o.count("patterns_abandoned_two_oracles_gave_up", 1)
+				o.count("pairs_not_run_pattern_abandoned", total-i)
+				for j := i; j < total; j++ {
+					resOgen[j], resO1[j], resO2[j] = na, na, na
+				}
+				return
+			}
 			nvotes, ayes := 0, 0
-			if m, ok := o1(rs); ok {
+			if m, ok := o1(s, rs); ok {
 				resO1[i] = b2(m)
 				nvotes++
 				if m {
@@ -679,8 +727,13 @@ func (w *worker) decide(it item, narrate bool) *outcome {
 			if og != ogb {
 				note(viol, &violOrder, "match-vs-matchstring/"+engine, i, true)
 			}
-			if o2over < 3 {
-				if m, ok := prog.Test(rs); ok {
+			if o2over < 3 && o2steps <= o2budget {
+				m, ok, st := prog.TestSteps(rs, ecmare.DefaultStepLimit)
+				if o2steps += st; o2steps > o2budget {
+					// deterministic: a step count, not a clock
+					o.count("patterns_o2_dropped_after_total_step_budget", 1)
+				}
+				if ok {
 					resO2[i] = b2(m)
 					if useO2 {
 						nvotes++
@@ -942,6 +995,7 @@ func Main(args []string) int {
 		return r.Finish("replay", 0, false)
 	}
 
+	debug.SetMemoryLimit(3 << 30) // soft: regexp2 spins allocate fast until their timeout
 	thorough := r.Thorough()
 	sets := []*subjects{buildSubjects(r, 3, r.N(600, 3000))}
 	if thorough {
